@@ -275,7 +275,7 @@ def run(mod, prop, tier, seed, scale, only, t0):
     }
     # evidence describes runs against /repo itself; runs redirected to a scratch copy (PV_REPO, developer tools)
     # must not overwrite it
-    evdir = os.path.join(ROOT, "evidence") if os.path.realpath(core.REPO) == "/repo" else os.path.join(ROOT, ".work", "evidence-scratch")
+    evdir = os.path.join(ROOT, "evidence") if os.path.realpath(core.REPO) == "/repo" and not os.environ.get("PV_EVIDENCE_SCRATCH") else os.path.join(ROOT, ".work", "evidence-scratch")
     os.makedirs(evdir, exist_ok=True)
     with open(os.path.join(evdir, f"{prop}.json"), "w", encoding="utf-8") as f:
         json.dump(ev, f, indent=1, default=str)
